@@ -158,6 +158,80 @@ ItemCount(t) == LET cs == {i \in 1..Len(t.kids) : t.kids[i].n = "c"} IN
                 (IF cs = {} THEN 0 ELSE Len(t.kids[MinOf(cs)].kids)) + (Len(t.kids) - Cardinality(cs))
 FullTrees(S) == {t \in Trees(S, FALSE) : ItemCount(t) = Cardinality(S)}
 
+\* ------------------------------------------------------- sized collections
+\* Size is an input: lists and leaf-lists (both orderings, top level and nested in a list entry) with n
+\* entries for every n of a set of sizes, inside the full tree of the schema (every other node present
+\* once), the children of every node in one of several arrangements (the children of a container / list
+\* entry are a set, RFC 6020 7.5.7 / 7.8.5: any order is a valid tree and a valid document).  Entry keys
+\* and values are numbered by a fixed injective sequence that is neither ascending nor descending, as
+\* numbers or as text, so that "the order the user gave" is no order a program would produce by itself.
+Scr(i) == (i * 37) % 101            \* 1..100 -> 1..100, injective (101 is prime)
+MaxSize == 100
+NthVal(ty, i) ==
+  LET s == ToString(Scr(i)) IN
+  CASE ty.b = "int8" -> IF Scr(i) >= 50 THEN ToString(Scr(i) - 50) ELSE "-" \o ToString(50 - Scr(i))
+    [] ty.b \in Wide -> s \o "000000000000000"                     \* beyond 2^53
+    [] ty.b \in IntTypes -> s
+    [] ty.b = "decimal64" -> IF ty.fd >= 4 THEN "1." \o s \o "5" ELSE s \o ".5"
+    [] ty.b = "string" -> IF ty.pat = "digits" THEN s ELSE "e" \o s
+\* n values of a type (fewer when the value space is smaller)
+SmallSpace(ty) == ty.b \in {"boolean", "enumeration", "identityref", "empty"}
+SizedVals(ty, mod, n) ==
+  IF SmallSpace(ty) THEN LET pool == IF ty.b = "empty" THEN <<"">> ELSE ValsOf(ty, mod, FALSE) IN SubSeq(pool, 1, IF n < Len(pool) THEN n ELSE Len(pool))
+  ELSE Mat([i \in 1..n |-> NthVal(ty, i)])
+\* arrangements of a sequence of siblings: 1 as written in the schema, 2 reversed, 3 rotated by half,
+\* 4 a seeded random permutation (generator only)
+RECURSIVE RandPerm(_)
+RandPerm(s) == IF Len(s) <= 1 THEN s ELSE LET i == RandomElement(1..Len(s)) IN <<s[i]>> \o RandPerm(RemoveAt(s, i))
+Arrange(s, arr) ==
+  CASE arr = 1 -> s
+    [] arr = 2 -> Mat([i \in 1..Len(s) |-> s[Len(s) + 1 - i]])
+    [] arr = 3 -> LET h == Len(s) \div 2 IN SubSeq(s, h + 1, Len(s)) \o SubSeq(s, 1, h)
+    [] OTHER -> RandPerm(s)
+\* the node of sn with n entries in every collection; idx numbers the leaf values of the enclosing entry.
+\* List entries: every entry has its key; leaves besides the key are present in every other entry (in every
+\* entry when the list has a unique constraint, with distinct values); nested collections and containers in
+\* the first entry only.
+RECURSIVE SizedNode(_, _, _, _), SizedKids(_, _, _, _, _)
+SizedKids(kids, n, idx, arr, i) ==
+  IF i > Len(kids) THEN << >> ELSE <<SizedNode(kids[i], n, idx, arr)>> \o SizedKids(kids, n, idx, arr, i + 1)
+SizedNode(sn, n, idx, arr) ==
+  CASE sn.k = "leaf" -> IF sn.ty.b = "empty" THEN N(sn.n, IF idx % 4 = 1 THEN << >> ELSE <<"">>, << >>)
+                        ELSE IF SmallSpace(sn.ty) THEN LET pool == ValsOf(sn.ty, sn.mod, FALSE) IN N(sn.n, <<pool[((idx - 1) % Len(pool)) + 1]>>, << >>)
+                        ELSE N(sn.n, <<NthVal(sn.ty, idx)>>, << >>)
+    [] sn.k = "ll" -> N(sn.n, SizedVals(sn.ty, sn.mod, n), << >>)
+    [] sn.k = "cont" -> N(sn.n, << >>, Arrange(SizedKids(sn.kids, n, idx, arr, 1), arr))
+    [] sn.k = "list" ->
+         LET keyleaf == Child(sn, sn.key)
+             keys == SizedVals(keyleaf.ty, keyleaf.mod, n)
+             leaves == SelectSeq(sn.kids, LAMBDA x : x.n # sn.key /\ x.k = "leaf")
+             nested == SelectSeq(sn.kids, LAMBDA x : x.n # sn.key /\ x.k # "leaf")
+             entry(i) == N(keys[i], << >>,
+                           Arrange(<<N(sn.key, <<keys[i]>>, << >>)>>
+                                   \o (IF i % 2 = 1 \/ sn.uniq # "" THEN SizedKids(leaves, n, i, arr, 1) ELSE << >>)
+                                   \o (IF i = 1 THEN SizedKids(nested, n, i, arr, 1) ELSE << >>), arr))
+         IN N(sn.n, << >>, Mat([i \in 1..Len(keys) |-> entry(i)]))
+SizedTree(S, n, arr) ==
+  LET sn == Schema(S)
+      top == Mat([i \in 1..Len(sn.kids) |-> SizedNode(sn.kids[i], n, 1, arr)])
+      \* a container without children carries no data (pc is a presence container: kept)
+      kept == SelectSeq(top, LAMBDA t : t.kids # << >>)
+  IN N("root", << >>, Arrange(kept, arr))
+SizedTrees(S, sizes, arrs) == {SizedTree(S, n, arr) : n \in sizes, arr \in arrs}
+
+\* XML documents in which the entries of a list / the values of a leaf-list are interleaved with their
+\* sibling elements (RFC 6020 7.7.7 / 7.8.5: they "MAY be interleaved with other sibling elements"): at every
+\* element the children are dealt round-robin over the element names, which keeps the relative order of
+\* the same-named ones
+RECURSIVE Riffle(_, _), XRiffle(_)
+Riffle(groups, r) ==     \* groups: sequence of sequences; r: round
+  LET live == SelectSeq(groups, LAMBDA g : Len(g) >= r) IN
+  IF live = << >> THEN << >> ELSE Mat([i \in 1..Len(live) |-> live[i][r]]) \o Riffle(live, r + 1)
+XRiffle(e) ==
+  LET ks == Mat([i \in 1..Len(e.kids) |-> XRiffle(e.kids[i])])
+      names == FirstNames(ks, 1, << >>)
+  IN [e EXCEPT !.kids = Riffle(Mat([i \in 1..Len(names) |-> SelectSeq(ks, LAMBDA x : x.n = names[i])]), 1)]
+
 \* ------------------------------------------------------------------ mutants
 \* single-point mutants of a JSON document: a value replaced by a value of another JSON type or
 \* class (a fraction for an integer, out of range, a string, a boolean, null, an empty array or
